@@ -134,7 +134,8 @@ fn compute_paths_of_destructure(
             let mut output_form = bodyform.clone();
 
             while produce_path > bi_one() {
-                if path.clone() & produce_path.clone() != bi_zero() {
+                // The lowest remaining bit is the next move from the root.
+                if produce_path.clone() & bi_one() != bi_zero() {
                     // Right path
                     output_form = Rc::new(make_operator1(
                         &bodyform.loc(),
